@@ -23,7 +23,7 @@
     are taken from mime/multipart itself, run by the harness on the same bytes
     (library oracle); the number of body writes per file from a fault-free run
     of the same request. *)
-From Perf Require Import Base.Bytes Base.Sx Model.Words Model.Query Model.StoreFmt Model.Upload Model.Ids
+From Perf Require Import Base.Bytes Base.Sx Model.Words Model.Query Model.StoreFmt Model.Upload Model.UploadSpec Model.Ids
      Model.IdsHist.
 
 Definition z2n (z : Z) : N := match z with Zpos p => Npos p | _ => 0%N end.
@@ -56,35 +56,62 @@ Definition as_rcase (s : sx) : option rcase :=
   | _ => None
   end.
 
+(** a further query or listing: kind 0 a search that does not name the upload
+    under test, 1 such a listing, 4 the plain listing limited to one row, 2 / 3
+    the search / listing for upload:<id> of an ID the Uploads table gained *)
+Definition more_t := (Z * bytes * list (bytes * bytes))%type.
+
 Record obs := mkObs {
   ob_ok : bool; ob_id : bytes;
   ob_search : list (bytes * bytes);          (* (upload label, content line) *)
   ob_list : list (bytes * N);                (* (upload id, count), as listed *)
-  ob_fs : list (bytes * bytes * bool) }.     (* (path, content, complete) *)
+  ob_fs : list (bytes * bytes * bool);       (* (path, content, complete) *)
+  ob_more : list more_t }.
+
+Definition as_more (s : sx) : option more_t :=
+  match s with
+  | SL [SZ k; SB name; rows] => do rows <- as_list (as_pair as_b as_b) rows; Some (k, name, rows)
+  | _ => None
+  end.
 
 Definition as_obs (s : sx) : option obs :=
   match s with
-  | SL [ok; SB id; sr; li; fs] =>
+  | SL [ok; SB id; sr; li; fs; more] =>
       do ok <- as_bool ok; do sr <- as_list (as_pair as_b as_b) sr;
       do li <- as_list (as_pair as_b (fun s => match s with SZ z => Some (z2n z) | _ => None end)) li;
       do fs <- as_list (as_triple as_b as_b as_bool) fs;
-      Some (mkObs ok id sr li fs)
+      do more <- as_list as_more more;
+      Some (mkObs ok id sr li fs more)
+  | _ => None
+  end.
+
+(** an earlier upload of the history: its request, the single fault it met
+    (same encoding as for the upload under test) and whether it was answered 200 *)
+Record pcase := mkP { pc_r : rcase; pc_fs : Z; pc_sq : Z; pc_sp : Z; pc_ok : bool }.
+
+Definition as_pcase (s : sx) : option pcase :=
+  match s with
+  | SL [r; SZ ff; SZ sq; SZ sp; ok] => do r <- as_rcase r; do ok <- as_bool ok; Some (mkP r ff sq sp ok)
   | _ => None
   end.
 
 Record ucase := mkUc {
-  uc_pre : list rcase; uc_req : rcase;
+  uc_pre : list pcase; uc_req : rcase;
   uc_fsfault : Z;                 (* index of the failing file-store operation, -1 = none *)
   uc_sqlfault : Z;                (* failing database step: 0 none, 1 NewUpload, 2 a flush at Commit,
                                      3 the commit, 4 a flush forced while part [uc_sqlpart] is read *)
   uc_sqlpart : Z;
+  uc_used0 : list bytes;          (* every ID seen in use (rows of the Uploads table, uploads/<id>/ in the
+                                     file store) after any step of the history, before the request ... *)
+  uc_used1 : list bytes;          (* ... and those together with what is seen after the request *)
   uc_before : obs; uc_after : obs }.
 
 Definition decode_u (l : list sx) : option ucase :=
   match l with
-  | [pre; rq; SZ ff; SZ sq; SZ sp; b; a] =>
-      do pre <- as_list as_rcase pre; do rq <- as_rcase rq; do b <- as_obs b; do a <- as_obs a;
-      Some (mkUc pre rq ff sq sp b a)
+  | [pre; rq; SZ ff; SZ sq; SZ sp; u0; u1; b; a] =>
+      do pre <- as_list as_pcase pre; do rq <- as_rcase rq;
+      do u0 <- as_list as_b u0; do u1 <- as_list as_b u1; do b <- as_obs b; do a <- as_obs a;
+      Some (mkUc pre rq ff sq sp u0 u1 b a)
   | _ => None
   end.
 
@@ -97,8 +124,10 @@ Definition fs_fault (n sq sp : Z) : oracle :=
            (fun i => (sq =? 4)%Z && (i =? z2n sp)%N)
            (sq =? 2)%Z (sq =? 3)%Z.
 
-Definition run_pre (pre : list rcase) : ustate StoreFmt.rec :=
-  fold_left (fun st r => fst (run_upload_sf (rc_id r) no_fault st (rc_req r))) pre st0.
+(** the history: every earlier upload with the fault it met *)
+Definition run_pre (pre : list pcase) : ustate StoreFmt.rec :=
+  fold_left (fun st p => fst (run_upload_sf (rc_id (pc_r p)) (fs_fault (pc_fs p) (pc_sq p) (pc_sp p)) st
+                                            (rc_req (pc_r p)))) pre st0.
 
 Definition model_search (st : ustate StoreFmt.rec) : list (bytes * bytes) :=
   flat_map (fun ir => flat_map (fun rc => map (fun r => (fst ir, r_content r)) (rec_results rc)) (snd ir))
@@ -126,87 +155,9 @@ Definition corr_u (c : ucase) : bool :=
      | UErr => negb (ob_ok (uc_after c))
      end.
 
-(** *** the specification on the observed output *)
+(** *** the specification on the observed output (declarative: Model/UploadSpec.v;
+    nothing below runs the part loop of the model) *)
 
-(** some fault is present in this run: an injected file-store fault that is
-    reached, a rejected or incomplete part, a body that does not end with its
-    closing delimiter, or rows the database refuses *)
-Definition item_faulty (id user tm : bytes) (i : N) (it : item) : bool :=
-  match it with
-  | IFile name body _ cut =>
-      cut || match read_with (part_meta id i name user tm) body with [] => true | _ => false end
-  | ICommit => false
-  | IOther _ => true
-  end.
-Fixpoint items_faulty (id user tm : bytes) (i : N) (items : list item) : bool :=
-  match items with
-  | [] => false
-  | it :: r => item_faulty id user tm i it || items_faulty id user tm (i + 1) r
-  end.
-(** number of leading parts that are in order *)
-Fixpoint sound_prefix (id user tm : bytes) (i : N) (items : list item) : nat :=
-  match items with
-  | [] => 0
-  | it :: r => if item_faulty id user tm i it then 0 else S (sound_prefix id user tm (i + 1) r)
-  end.
-Definition has_file (items : list item) : bool :=
-  existsb (fun it => match it with IFile _ _ _ _ => true | _ => false end) items.
-
-Fixpoint all_results (id user tm : bytes) (i : N) (items : list item) : list result :=
-  match items with
-  | [] => []
-  | IFile name body _ _ :: r => read_with (part_meta id i name user tm) body ++ all_results id user tm (i + 1) r
-  | _ :: r => all_results id user tm (i + 1) r
-  end.
-
-Definition ops_total (st : ustate StoreFmt.rec) (r : rcase) : nat :=
-  fw_ops (lo_fsw _ (part_loop _ read_with (fun _ => Some (match rc_id r with Some i => i | None => bs "x" end)) no_fault
-      (rq_user (rc_req r)) (rq_time (rc_req r)) (rq_items (rc_req r)) 0 (us_ids st) (mkFsw (us_fs st) 0) None)).
-
-Definition obs_same (a b : obs) : bool :=
-  mset_eqb pair_eqb (ob_search a) (ob_search b) && list_eqb idn_eqb (ob_list a) (ob_list b).
-
-Definition prop_u (c : ucase) : bool :=
-  let rq := rc_req (uc_req c) in
-  let id := match rc_id (uc_req c) with Some i => i | None => [] end in
-  let st := run_pre (uc_pre c) in
-  let faulty :=
-    match rq_end rq with EndClosed => false | _ => true end
-    || negb (has_file (rq_items rq))
-    || items_faulty id (rq_user rq) (rq_time rq) 0 (rq_items rq)
-    || rejects_sf (coalesce_sf (all_results id (rq_user rq) (rq_time rq) 0 (rq_items rq)))
-    || ((0 <=? uc_fsfault c)%Z && (Z.to_nat (uc_fsfault c) <? ops_total st (uc_req c))%nat)
-    || negb (uc_sqlfault c =? 0)%Z in
-  let b := uc_before c in let a := uc_after c in
-  (* no partial file is ever left behind; files present before are untouched *)
-  forallb (fun e => snd e) (ob_fs a)
-  && forallb (fun e => existsb (fsent_eqb e) (ob_fs a)) (ob_fs b)
-  && if faulty then
-       (* nothing of this upload can be queried or listed; earlier uploads unaffected;
-          whatever the failed upload left in the store is a completely written file
-          (header + body) of a part before the first faulty part *)
-       negb (ob_ok a) && obs_same b a
-       && (let k := sound_prefix id (rq_user rq) (rq_time rq) 0 (rq_items rq) in
-           let allowed := us_fs (fst (run_upload_sf (Some id) no_fault (mkUs [] [] [])
-                                    (mkReq (firstn k (rq_items rq)) EndClosed (rq_user rq) (rq_time rq)))) in
-           forallb (fun e => existsb (fsent_eqb e) (ob_fs b)
-                             || existsb (fun pc => fsent_eqb e (pc, true)) allowed) (ob_fs a))
-     else
-       (* every record of every file is queryable, once; each file stored once with its header *)
-       ob_ok a
-       && mset_eqb pair_eqb (ob_search a)
-            (ob_search b ++ map (fun r => (ob_id a, r_content r))
-                                (all_results (ob_id a) (rq_user rq) (rq_time rq) 0 (rq_items rq)))
-       && match ob_list a with
-          | (i, n) :: rest => beq i (ob_id a) && negb (n =? 0)%N && list_eqb idn_eqb rest (ob_list b)
-          | [] => false
-          end
-       && negb (existsb (fun e => beq (fst e) (ob_id a)) (ob_list b))
-       && mset_eqb fsent_eqb (ob_fs a)
-            (ob_fs b ++ map (fun pc => (pc, true))
-               (us_fs (fst (run_upload_sf (Some (ob_id a)) no_fault (mkUs [] [] []) rq)))).
-
-(** ** kind 1: IDs *)
 Definition c_dot : byte := x2e.
 
 (** "YYYYMMDD.N" -> (day, seq) *)
@@ -224,6 +175,186 @@ Definition parse_id (s : bytes) : option uid :=
   | None => None
   end.
 
+Fixpoint nodup_bytes (l : list bytes) : bool :=
+  match l with [] => true | x :: r => negb (existsb (beq x) r) && nodup_bytes r end.
+
+(** the upload-time of the server's metadata header: RFC 3339 in UTC, to the
+    second (YYYY-MM-DDTHH:MM:SSZ) *)
+Definition time_ok (t : bytes) : bool :=
+  match t with
+  | [y1; y2; y3; y4; d1; m1; m2; d2; a1; a2; tsep; h1; h2; c1; n1; n2; c2; s1; s2; z] =>
+      forallb is_digit [y1; y2; y3; y4; m1; m2; a1; a2; h1; h2; n1; n2; s1; s2]
+      && Byte.eqb d1 x2d && Byte.eqb d2 x2d && Byte.eqb tsep x54 && Byte.eqb c1 x3a && Byte.eqb c2 x3a
+      && Byte.eqb z x5a
+  | _ => false
+  end.
+
+(** the content of a part is in order: it arrived completely and has a benchmark line *)
+Definition item_good (id user tm : bytes) (i : N) (it : item) : bool :=
+  match it with
+  | IFile name body _ cut =>
+      negb cut && match read_with (part_meta id i name user tm) body with [] => false | _ => true end
+  | ICommit => true
+  | IOther _ => false
+  end.
+Definition has_file (items : list item) : bool :=
+  existsb (fun it => match it with IFile _ _ _ _ => true | _ => false end) items.
+
+Fixpoint all_results (id user tm : bytes) (i : N) (items : list item) : list result :=
+  match items with
+  | [] => []
+  | IFile name body _ _ :: r => read_with (part_meta id i name user tm) body ++ all_results id user tm (i + 1) r
+  | _ :: r => all_results id user tm (i + 1) r
+  end.
+
+Definition mset_sub {A} (eqb : A -> A -> bool) (a b : list A) : bool :=
+  forallb (fun x => Nat.leb (count_of eqb x a) (count_of eqb x b)) a.
+
+Definition obs_same (a b : obs) : bool :=
+  mset_eqb pair_eqb (ob_search a) (ob_search b) && mset_eqb idn_eqb (ob_list a) (ob_list b).
+
+Definition find_more (name : bytes) (l : list more_t) : option (list (bytes * bytes)) :=
+  match filter (fun m => beq (snd (fst m)) name) l with m :: _ => Some (snd m) | [] => None end.
+Definition has_more (k : Z) (name : bytes) (l : list more_t) : bool :=
+  existsb (fun m => (fst (fst m) =? k)%Z && beq (snd (fst m)) name) l.
+
+(** the further queries and listings after a FAILED upload: each one that was
+    also made before gives what it gave before; the ones naming an ID the
+    server is seen to use since this request (they are made for every such ID)
+    give nothing *)
+Definition more_failed (c : ucase) : bool :=
+  let b := ob_more (uc_before c) in let a := ob_more (uc_after c) in
+  forallb (fun m => match find_more (snd (fst m)) a with Some _ => true | None => false end) b
+  && forallb (fun m : more_t =>
+       let '(k, name, rows) := m in
+       if (k =? 2)%Z || (k =? 3)%Z then match rows with [] => true | _ => false end
+       else match find_more name b with
+            | Some r0 => if (k =? 0)%Z then mset_eqb pair_eqb r0 rows else list_eqb pair_eqb r0 rows
+            | None => false
+            end) a
+  && forallb (fun id => existsb (beq id) (uc_used0 c)
+                        || (has_more 2 (bs "S:upload:" ++ id) a && has_more 3 (bs "L:upload:" ++ id) a))
+             (uc_used1 c).
+
+(** ... and after a SUCCESSFUL upload [id] whose records are [exp] and which
+    is listed with [n] records: a search that does not name it returns what it
+    returned before plus records of this upload only, each of them one of [exp]
+    and none more often than there; a listing that does not name it lists the
+    earlier uploads as before and this one at most once; the plain listing
+    limited to one row lists this upload; upload:<id> returns exactly [exp] and
+    lists exactly this upload with all its records *)
+Definition more_succeeded (c : ucase) (id : bytes) (n : N) (exp : list (bytes * bytes)) : bool :=
+  let b := ob_more (uc_before c) in let a := ob_more (uc_after c) in
+  let mine (r : bytes * bytes) := beq (fst r) id in
+  forallb (fun m => match find_more (snd (fst m)) a with Some _ => true | None => false end) b
+  && has_more 2 (bs "S:upload:" ++ id) a && has_more 3 (bs "L:upload:" ++ id) a
+  && forallb (fun m : more_t =>
+       let '(k, name, rows) := m in
+       if (k =? 2)%Z then
+         if beq name (bs "S:upload:" ++ id) then mset_eqb pair_eqb rows exp
+         else match rows with [] => true | _ => false end
+       else if (k =? 3)%Z then
+         if beq name (bs "L:upload:" ++ id)
+         then match rows with
+              | [(i, d)] => beq i id && has_prefix d (dec n ++ bs "|")
+              | _ => false
+              end
+         else match rows with [] => true | _ => false end
+       else if (k =? 4)%Z then match rows with [(i, _)] => beq i id | _ => false end
+       else match find_more name b with
+            | None => false
+            | Some r0 =>
+                if (k =? 0)%Z then
+                  let added := filter mine rows in
+                  mset_sub pair_eqb r0 rows && Nat.eqb (length rows) (length r0 + length added)
+                  && mset_sub pair_eqb added exp
+                else
+                  list_eqb pair_eqb (filter (fun r => negb (mine r)) rows) r0
+                  && Nat.leb (length (filter mine rows)) 1
+            end) a.
+
+Definition db_fault_of (sq sp : Z) : db_fault :=
+  if (sq =? 1)%Z then DbNewUpload else if (sq =? 4)%Z then DbWhilePart (z2n sp)
+  else if (sq =? 0)%Z then DbNone else DbAtCommit.
+
+(** [relax] = the judge of the known finding C20_truncated_in_later_part_header:
+    a cleanly framed body that stops inside the MIME header of a later part is
+    taken for a complete form consisting of the parts before the cut. Nothing
+    else changes: with [relax] such a request must then be committed EXACTLY as
+    that shorter form (all the success clauses below, for the files before the
+    cut), or be refused with all the failure clauses. *)
+Definition prop_u_gen (relax : bool) (c : ucase) : bool :=
+  let rq := rc_req (uc_req c) in
+  let id := match rc_id (uc_req c) with Some i => i | None => [] end in
+  let user := rq_user rq in let tm := rq_time rq in let items := rq_items rq in
+  let good := item_good id user tm in
+  let fsf := if (uc_fsfault c <? 0)%Z then None else Some (Z.to_nat (uc_fsfault c)) in
+  (* some step of this upload fails: the body does not end with its closing
+     delimiter, no file, a faulty part, rows the database refuses, a file-store
+     operation that is reached fails, a database step fails *)
+  let faulty :=
+    match rq_end rq with EndClosed => false | EndInHeader => negb relax | EndBroken => true end
+    || negb (has_file items)
+    || negb (forallb (fun x => x) (map (fun p => good (fst p) (snd p))
+                                      (combine (map N.of_nat (seq 0 (length items))) items)))
+    || rejects_sf (coalesce_sf (all_results id user tm 0 items))
+    || match fsf with Some n => Nat.ltb n (spec_ops id user tm items 0) | None => false end
+    || negb (uc_sqlfault c =? 0)%Z in
+  let b := uc_before c in let a := uc_after c in
+  (* the history: what can be queried or listed before the request is of earlier
+     uploads that were answered 200, and each of those is listed - nothing of an
+     earlier upload that failed or was aborted *)
+  let ok_ids := flat_map (fun p => if pc_ok p then match rc_id (pc_r p) with Some i => [i] | None => [] end else [])
+                         (uc_pre c) in
+  forallb (fun r => existsb (beq (fst r)) ok_ids) (ob_search b)
+  && mset_eqb beq (map fst (ob_list b)) ok_ids
+  && forallb (fun m : more_t => forallb (fun r => existsb (beq (fst r)) ok_ids) (snd m)) (ob_more b)
+  && forallb (fun u => existsb (beq u) (uc_used1 c)) (uc_used0 c)
+  (* no partial file is ever left behind; files present before are untouched *)
+  && forallb (fun e => snd e) (ob_fs a)
+  && forallb (fun e => existsb (fsent_eqb e) (ob_fs a)) (ob_fs b)
+  && if ob_ok a then
+       (* it succeeds: then no step failed; every record of every file is queryable, once, by
+          every query; the upload is listed; its ID has the form YYYYMMDD.N, was never handed
+          out before (also not to a failed upload) and lies above the earlier ones of its day;
+          each file stored once with its header *)
+       let nid := ob_id a in
+       let exp := map (fun r => (nid, r_content r)) (all_results nid user tm 0 items) in
+       negb faulty && time_ok tm
+       && mset_eqb pair_eqb (ob_search a) (ob_search b ++ exp)
+       && match filter (fun e => beq (fst e) nid) (ob_list a) with
+          | [(_, n)] => negb (n =? 0)%N
+                        && mset_eqb idn_eqb (filter (fun e => negb (beq (fst e) nid)) (ob_list a)) (ob_list b)
+                        && more_succeeded c nid n exp
+          | _ => false
+          end
+       && negb (existsb (beq nid) (uc_used0 c)) && existsb (beq nid) (uc_used1 c)
+       && match parse_id nid with
+          | Some u => forallb (fun o => match parse_id o with
+                                        | Some v => negb (fst v =? fst u)%N || (snd v <? snd u)%N
+                                        | None => false
+                                        end) (uc_used0 c)
+          | None => false
+          end
+       && mset_eqb fsent_eqb (ob_fs a)
+            (ob_fs b ++ map (fun pc => (pc, true)) (spec_files nid user tm items 0))
+     else
+       (* it fails: nothing of this upload can be queried or listed by any query; earlier
+          uploads unaffected; whatever it left in the store is a completely written file
+          (header + body) of a part BEFORE the part being processed when the fault happened *)
+       obs_same b a && more_failed c
+       && (let k := failing_part id user tm items good fsf (db_fault_of (uc_sqlfault c) (uc_sqlpart c)) in
+           let allowed := spec_files id user tm (firstn k items) 0 in
+           forallb (fun e => existsb (fsent_eqb e) (ob_fs b)
+                             || existsb (fun pc => fsent_eqb e (pc, true)) allowed) (ob_fs a)).
+
+Definition prop_u := prop_u_gen false.
+(** the judge of the known finding: everything the property demands, except
+    that a body stopping inside a later part's header counts as the complete
+    form of the parts before the cut *)
+Definition known_u := prop_u_gen true.
+
+(** ** kind 1: IDs *)
 Record icase := mkI { ic_day : N; ic_seq : list bytes; ic_conc : list (list bytes); ic_errs : N }.
 
 Definition decode_i (l : list sx) : option icase :=
@@ -360,8 +491,6 @@ Definition corr_s (c : skew) : bool :=
   | None => false
   end.
 
-Fixpoint nodup_bytes (l : list bytes) : bool :=
-  match l with [] => true | x :: r => negb (existsb (beq x) r) && nodup_bytes r end.
 
 (** no ID twice (among the new ones and the ones present before); the listing
     is exactly the earlier uploads plus the committed new ones *)
@@ -374,7 +503,7 @@ Definition prop_s (c : skew) : bool :=
 
 Definition run_case (s : sx) : N :=
   match s with
-  | SL (SZ 0 :: l) => match decode_u l with Some c => code_of (corr_u c) (prop_u c) | None => code_undecodable end
+  | SL (SZ 0 :: l) => match decode_u l with Some c => code_of3 (corr_u c) (prop_u c) (known_u c) | None => code_undecodable end
   | SL (SZ 1 :: l) => match decode_i l with Some c => code_of (corr_i c) (prop_i c) | None => code_undecodable end
   | SL [SZ 2; steps] =>
       match as_list as_hobs steps with
